@@ -16,7 +16,7 @@ pub fn run(ctx: &Ctx) -> i32 {
     let vendors = ["v1", "v2"]; let conf = [None, Some("c1"), Some("c2")];
     let mut atts: Vec<Att> = vec![]; for (i, _) in payloads.iter().enumerate() { for v in vendors { for c in conf { atts.push((i, v, c)) } } }
     let att_env: Vec<Envelope> = atts.iter().map(|(pi, v, c)| Envelope::new_attachment(payloads[*pi].clone(), v, *c)).collect();
-    let bases: Vec<Envelope> = families::plain(3).iter().map(|m| bind::build(m, 0)).collect();
+    let bases: Vec<Envelope> = families::plain(3).iter().chain(families::nsn().iter().take(2)).map(|m| bind::build(m, 0)).collect();
     let maxn = 3;
     // multisets as sequences (every order, with repetition); thorough length 3 over a reduced attachment pool
     let mut seqs: Vec<Vec<usize>> = vec![vec![]];
@@ -44,6 +44,25 @@ pub fn run(ctx: &Ctx) -> i32 {
                         if !g.attachment_payload().map(|p| p.is_identical_to(&payloads[pi]) && bind::observe(&p) == bind::observe(&payloads[pi])).unwrap_or(false) { acc.viol("C19|attachment_payload|differs", "payload is not identical to the one added", cid("payload"), json!({})) }
                         if g.attachment_vendor().ok().as_deref() != Some(v) { acc.viol("C19|attachment_vendor|differs", "vendor differs", cid("vendor"), json!({})) }
                         if g.attachment_conforms_to().ok() != Some(c.map(|x| x.to_string())) { acc.viol("C19|attachment_conforms_to|differs", "conformsTo differs", cid("conformsTo"), json!({})) }
+                    }
+                }
+                // an attachment obscured in place and put back (replace the placeholder / compressed form by the original assertion), and an
+                // attachment replaced by itself: attachments() is again exactly the added set
+                for g in got.iter().take(2) {
+                    acc.inc("restore_checks");
+                    let t = bind::dset(&[bind::dg(g)]);
+                    let forms: Vec<(&str, Option<Envelope>, Envelope)> = vec![
+                        ("elided", catch(|| e.elide_removing_set(&t)).ok(), g.elide()),
+                        ("compressed", catch(|| e.elide_removing_set_with_action(&t, &ObscureAction::Compress)).ok(), g.compress().unwrap_or_else(|_| g.clone())),
+                        ("itself", Some(e.clone()), g.clone()),
+                    ];
+                    for (fname, hidden, placeholder) in forms {
+                        let Some(hidden) = hidden else { continue };
+                        match catch(|| hidden.replace_assertion(placeholder.clone(), g.clone()).ok().and_then(|r| r.attachments().ok())) {
+                            Ok(Some(back)) => { let mut bd: Vec<[u8; 32]> = back.iter().map(bind::dg).collect(); bd.sort(); if bd != ed || back.iter().any(|x| x.is_obscured()) { acc.viol(format!("C19|restore|{fname}|set-differs"), "after putting an obscured attachment back with replace_assertion, attachments() is not the added set", cid(&format!("restore-{fname}")), json!({"envelope": crate::report::ff(&e)})) } }
+                            Ok(None) => acc.viol(format!("C19|restore|{fname}|refused"), "replace_assertion or attachments() failed while putting an attachment back", cid(&format!("restore-{fname}")), json!({"envelope": crate::report::ff(&e)})),
+                            Err(_) => acc.inc("panics_counted_under_C16"),
+                        }
                     }
                 }
                 if let Ok(Ok(a)) = catch(|| Attachments::try_from_envelope(&e)) { for d in &ed { if a.get(&Digest::from_data(*d)).is_none() { acc.viol("C19|Attachments::try_from_envelope|missing", "container misses an attachment", cid("container"), json!({})) } } }
